@@ -74,3 +74,17 @@ def run_model(model, globals_, log=None, max_statements=100000, debug=False, **o
 
 def run_source(src, globals_, log=None, max_statements=100000, **options):
     return run_model(parse_script(src), globals_, log, max_statements, **options)
+
+
+def parse_valid(src, detail, what='generated program'):
+    """Parse source that is valid by construction: any failure is a property violation of the code under test."""
+    from pbt.common.core import Violation, innermost_repo_frame
+    try:
+        return parse_script(src)
+    except BareScriptParserError as e:
+        raise Violation('%s does not parse: %s' % (what, str(e)[:300]), detail, 'parse') from e
+    except RecursionError:
+        raise
+    except Exception as e:  # pylint: disable=broad-except
+        raise Violation('parse_script raised %s: %s (at %s) for a valid %s' % (type(e).__name__, str(e)[:100], innermost_repo_frame(e), what), detail,
+                        'parse-host-exception:' + type(e).__name__) from e
